@@ -6,6 +6,7 @@
 package c05
 
 import (
+	"math"
 	"context"
 	"errors"
 	"flag"
@@ -227,7 +228,16 @@ func runScenario(rc *recorder, seed int64, maxSize int, withLimiter bool) {
 			if withLimiter {
 				ictx, release = cl.Acquire(ctx)
 			}
-			v, err := f.Invoke(ictx, name)
+			var v interface{}
+			var err error
+			func() {
+				defer func() {
+					if p := recover(); p != nil {
+						err = fmt.Errorf("invoke-crashed: %v", p)
+					}
+				}()
+				v, err = f.Invoke(ictx, name)
+			}()
 			release()
 			e := &Event{Ev: "ret", C: name, Args: []string{}}
 			if err != nil {
@@ -273,7 +283,11 @@ func Main(args []string) error {
 	rec = rc
 	batch.VerifHook = hook
 	for i := 0; i < *scenarios; i++ {
-		runScenario(rc, *seed*7919+int64(i), *maxSize, *limiter)
+		ms := *maxSize
+		if ms < 0 {
+			ms = math.MaxInt // "no limit" written as the largest int
+		}
+		runScenario(rc, *seed*7919+int64(i), ms, *limiter)
 		if rc.events[len(rc.events)-1].Ev == "hang" {
 			break
 		}
